@@ -4,6 +4,7 @@ package main
 // Sort: W==0 => Bool, otherwise (_ BitVec W).
 
 import (
+	"crypto/sha256"
 	"fmt"
 	"math/big"
 	"strconv"
@@ -24,6 +25,8 @@ type Term struct {
 	vars     []*Term
 	varsDone bool
 	size int     // DAG-unaware size estimate
+	sh     [16]byte // structural hash (independent of term ids), see structHash
+	shDone bool
 }
 
 type TermPool struct {
@@ -672,4 +675,48 @@ func (t *Term) Eval(m map[string]*big.Int, memo map[int]*big.Int, uf func(*Term,
 	}
 	memo[t.id] = r
 	return r
+}
+
+
+// structHash is a 128-bit hash of the term's structure that does not depend on pool-local ids, so
+// that equal queries raised on different paths and by different workers get the same key.
+func (t *Term) structHash() [16]byte {
+	if t.shDone {
+		return t.sh
+	}
+	// iterative post-order
+	stack := []*Term{t}
+	for len(stack) > 0 {
+		x := stack[len(stack)-1]
+		if x.shDone {
+			stack = stack[:len(stack)-1]
+			continue
+		}
+		ready := true
+		for _, a := range x.Args {
+			if !a.shDone {
+				stack = append(stack, a)
+				ready = false
+			}
+		}
+		if !ready {
+			continue
+		}
+		stack = stack[:len(stack)-1]
+		h := sha256.New()
+		fmt.Fprintf(h, "%s|%d|%s|%d|%d|", x.Op, x.W, x.Name, x.P1, x.P2)
+		if x.C != nil {
+			h.Write(x.C.Bytes())
+			if x.C.Sign() < 0 {
+				h.Write([]byte{'-'})
+			}
+		}
+		h.Write([]byte{'|'})
+		for _, a := range x.Args {
+			h.Write(a.sh[:])
+		}
+		copy(x.sh[:], h.Sum(nil))
+		x.shDone = true
+	}
+	return t.sh
 }
